@@ -308,6 +308,15 @@ def body(ctx, conv, shape, variant, kind, part, data_first=False, via=None):
 
 
 def cases(tier):
+    # larger grids (more than 1,024 locations, row lengths such as 49 and 103 whose reciprocal is not exact): the index
+    # arithmetic is symbolic, so the size of the grid costs nothing
+    for conv, shp, variant, kinds in (('cf1d', (2, 49), 'yx', ['face']), ('cf1d', (33, 32), 'index', ['face']), ('cf2d', (40, 103), 'coords', ['face']),
+                                      ('shoc_standard', (7, 197), '-', ['face', 'left', 'node']), ('shoc_simple', (1025, 2), '-', ['face']),
+                                      ('ugrid', 'strip1100', 'edgedim', ['face', 'node', 'edge'])):
+        for kind in kinds:
+            for part in ('meta', 'wind', 'ravel'):
+                yield Case(f'{conv}:{shp}:{variant}:{kind}:{part}:large'.replace(' ', ''), body, dict(conv=conv, shape=shp, variant=variant, kind=kind, part=part),
+                           patches=_patches, max_paths=500)
     # (cheap concrete cases first: a change that makes the symbolic cases below run long is still reported)
     for conv, shp, variant, kind in (('cf1d', (2, 3), 'yx', 'face'), ('shoc_standard', (2, 3), '-', 'left'), ('ugrid', 'tqp', 'edgedim', 'edge')):
         yield Case(f'{conv}:{shp}:{variant}:{kind}:huge'.replace(' ', ''), body, dict(conv=conv, shape=shp, variant=variant, kind=kind, part='huge'), max_paths=5)
